@@ -159,6 +159,12 @@ def builders(model):
     B['expr:FlatteningOperator + vector'] = flat_shift
     B['expr:IdentityOperator + vector'] = lambda I: I.binop(
         ast.Add, inst(I, 'IdentityOperator', X()), sym_elem(X(), 'v'))
+    # pointwise products whose left factor returns its argument itself out
+    # of place
+    B['OperatorPointwiseProduct[RealPart[R], Power2]'] = lambda I: inst(
+        I, 'OperatorPointwiseProduct', inst(I, 'RealPart', X()), pw(I))
+    B['OperatorPointwiseProduct[Power2, RealPart[R]]'] = lambda I: inst(
+        I, 'OperatorPointwiseProduct', pw(I), inst(I, 'RealPart', X()))
     # compositions that were given a temporary for the inner result
     for t, mk in (('Power2', lambda I: pw(I)),
                   ('Norm', lambda I: inst(I, 'NormOperator', X()))):
